@@ -424,6 +424,26 @@ theorem to_crs_pointwise (E : Env K) (proj : C01.CrsRec → C01.CrsRec → Pt K 
     · rfl
     · exact segmented_preserves_kind_and_structure E r g.geom d hseg
 
+/-- **Multi-part densification through `to_crs`**: with a positive resolution the geometry that
+is projected is `segmented(r)` of the input — every edge of every ring of every part, at any
+nesting depth and whatever the size of the part relative to `r`, is `≤ r` before projecting;
+no part is passed through untouched. -/
+theorem to_crs_resolution_densifies_every_part (E : Env K)
+    (proj : C01.CrsRec → C01.CrsRec → Pt K → Pt K) (autoRes : Geom K → K) (s t : C01.CrsRec)
+    (geom : Geom K) (r : K) (hr : 0 < r) (hne : C01.tagEq (some s) (some t) = false) (g' : Tagged K)
+    (h : toCrs E proj autoRes ⟨some s, geom⟩ (some t) (.val r) = .ok g')
+    (hE : ∀ c ∈ rings geom, CoordsOk E r c) :
+    ∃ d, segmentize E r geom = .ok d ∧ g' = ⟨some t, mapPts (proj s t) d⟩ ∧
+      (∀ c ∈ rings d, GapsLe r c) ∧ skel d = skel geom := by
+  unfold toCrs at h
+  simp only [hne, Bool.false_eq_true, if_false, hr, if_true] at h
+  cases hseg : segmentize E r geom with
+  | error e => simp [hseg] at h
+  | ok d =>
+    simp only [hseg, Except.ok.injEq] at h
+    exact ⟨d, rfl, h.symm, segmented_gap_le E r geom d hseg hE,
+      segmented_preserves_kind_and_structure E r geom d hseg⟩
+
 /-- without a resolution the conversion is exactly `proj` on every vertex of the input -/
 theorem to_crs_pointwise_plain (E : Env K) (proj : C01.CrsRec → C01.CrsRec → Pt K → Pt K)
     (autoRes : Geom K → K) (s t : C01.CrsRec) (geom : Geom K)
